@@ -146,10 +146,7 @@ func init() {
 			[]string{vOK, vS0, aAddrEq, vIPOK, vLeft, vSelf, "m.config.Conflict==nil"}, func(g getf) bool {
 				return aliveFound(g) && !isT(g, aAddrEq) && isT(g, vIPOK) && isMember(g(vS0)) && !isT(g, "m.config.Conflict==nil") && !(isT(g, vLeft) && isT(g, vSelf))
 			})
-		c.existsRow(a, "C08/alive/reclaim-exists", "a name is reusable from a new allowed address immediately after a graceful leave", []string{"W:Addr", "W:State", "BCAST"},
-			[]string{vOK, vS0, aAddrEq, vIPOK, vLeft, vSelf}, func(g getf) bool {
-				return aliveFound(g) && !isT(g, aAddrEq) && isT(g, vIPOK) && g(vS0) == "StateLeft" && !isT(g, vSelf)
-			})
+		checkReclaimExists(c, "C08")
 		// the reclaim predicate is built from the same configuration field on both sides
 		checkReclaimDefUse(c, a)
 
@@ -367,4 +364,22 @@ func checkLeaveFlagMonotone(c *Ctx, prop string) {
 		c.Check(prop+"/leave-flag-monotone/"+s.Fn.Name, rule, s.Pos, ok, "the leave flag is written with something other than Store(1) in "+s.Fn.Name)
 	}
 	c.Floor("writes to the leave flag", n, 1)
+}
+
+// checkReclaimExists: a restarted process starts counting its incarnation from
+// scratch, so the take-over of a departed (or long dead, reclaimable) holder's
+// name from a new allowed address must not depend on the claim's incarnation:
+// for every order of the two incarnations an accepting path exists. (C08: the
+// name is reusable at once; C09: the host lists a re-joining member as soon as
+// its handler finishes.)
+func checkReclaimExists(c *Ctx, prop string) {
+	a := c.handlerModels()["alive"]
+	c.existsRow(a, prop+"/alive/reclaim-exists", "a name is reusable from a new allowed address immediately after a graceful leave, whatever incarnation the new holder announces (a restarted process starts from scratch)", []string{"W:Addr", "W:State", "W:Incarnation", "BCAST"},
+		[]string{vOK, vS0, aAddrEq, vIPOK, vLeft, vSelf, vOrd}, func(g getf) bool {
+			return aliveFound(g) && !isT(g, aAddrEq) && isT(g, vIPOK) && g(vS0) == "StateLeft" && !isT(g, vSelf)
+		})
+	c.existsRow(a, prop+"/alive/reclaim-dead-exists", "the name of a holder that has been dead longer than the configured reclaim time is reusable from a new allowed address, whatever incarnation the new holder announces", []string{"W:Addr", "W:State", "W:Incarnation", "BCAST"},
+		[]string{vOK, vS0, aAddrEq, vIPOK, vLeft, vSelf, vOrd, vReclCf, vAge}, func(g getf) bool {
+			return aliveFound(g) && !isT(g, aAddrEq) && isT(g, vIPOK) && g(vS0) == "StateDead" && isT(g, vReclCf) && g(vAge) == "GT" && !isT(g, vSelf)
+		})
 }
